@@ -1,7 +1,7 @@
 # C13: notification_queue under a deterministic two-context scheduler (lib/sched.hpp), needs hook 1 (yield points in notification_queue.hpp)
 target('c13_race', 'engines/comp/c13_race.cpp',
-       quick=dict(cases=80000, size=60),
-       thorough=dict(cases=1000000, size=80))
+       quick=dict(cases=480000, size=60),
+       thorough=dict(cases=3000000, size=80))
 # exhaustive enumeration of complete schedule trees; thorough tier only (quick: 0 cases). parts == procs; cases == number of
 # trees of dfs_space() (17952).
 target('c13_race_dfs', 'engines/comp/c13_race.cpp',
